@@ -100,7 +100,7 @@ func runC18(c *Ctx) {
 						return false
 					}
 					fr2, ok := core.FieldOfValue(u)
-					return ok && fr2.Base == fr.Base
+					return ok && (fr2.Base == fr.Base || sameFieldPath(u.X, st.Addr))
 				}
 				// the classification runs in a context: the system that proves emptiness, the point at which it must hold,
 				// and what counts as "the current window" (in a pure helper: the parameter that receives it)
@@ -150,6 +150,9 @@ func runC18(c *Ctx) {
 						}
 						return "bad", "parameter " + v.Name() + ", which is not the current window"
 					case *ssa.Call:
+						if op, isSuf := suffixOperand(v); isSuf {
+							return classify(op, depth+1)
+						}
 						// a pure helper of the package that computes the next window from the current one
 						// (nextWindow(reader.Msg, size)): each of its results is classified in its own terms
 						h := core.StaticCallee(v)
@@ -185,6 +188,10 @@ func runC18(c *Ctx) {
 						if kind != "" {
 							R.Analysed(fname(h))
 							return kind, ""
+						}
+					case *ssa.Extract:
+						if op, isSuf := suffixOperand(v); isSuf {
+							return classify(op, depth+1) // a suffix of its operand: never starts before it
 						}
 					case *ssa.Slice:
 						k, w := classify(v.X, depth+1)
@@ -245,6 +252,9 @@ func runC18(c *Ctx) {
 		for name, m := range pkg.Members {
 			if g, ok := m.(*ssa.Global); ok {
 				elem := g.Type().(*types.Pointer).Elem()
+				if _, isConstByte := c.sslByte(g); isConstByte && isByteSliceLike(elem) {
+					continue // a one-byte literal that is never reassigned (a separator constant): it cannot hold a message
+				}
 				if isByteSliceLike(elem) || core.IsNamed(elem, "sync", "Pool") {
 					R.Fail("C18.R1", "buffer-global:"+name, c.P.Pos(g.Pos()), "no package-level storage can hold or recycle message buffers", "package variable "+name+" of type "+elem.String()+" can recycle message storage between reads")
 				}
@@ -337,7 +347,7 @@ func runC18(c *Ctx) {
 					if fr, _ := core.FieldOfAddr(fa); fr.Is(pkBuffer, "Reader", "Msg") {
 						nLoads++
 						for _, r := range core.Referrers(fa) {
-							if _, isStore := r.(*ssa.Store); isStore {
+							if stw, isStore := r.(*ssa.Store); isStore && !advanceOfOwnWindow(stw) {
 								R.Fail("C18.R3", fkey(fn)+":window-store-outside-buffer", c.at(r), "package wire only reads the message window", "Reader.Msg is assigned in "+fname(fn))
 							}
 						}
